@@ -211,6 +211,7 @@ func (h *HTTP) Start() {
 
 	h.GinEngine.POST("/*endpoint", h.request)
 	h.GinEngine.GET("/*endpoint", h.fake404)
+	h.GinEngine.NoRoute(h.fake404)
 	h.Active = true
 
 	if h.Config.Secure {
